@@ -13,6 +13,7 @@ import (
 type Ctx struct {
 	Repo, Verif, Tier string
 	maxDepthSeen      int
+	c01Clean          *bool
 	P                 *Program
 
 	edges      map[*ssa.Function][]Edge
